@@ -3,6 +3,7 @@ package main
 // C07 — retention never deletes what the latest restore needs.
 
 import (
+	"os"
 	"fmt"
 	"go/token"
 	"go/types"
@@ -134,6 +135,12 @@ func c07Function(c *Ctx, fn *ssa.Function) {
 	if li, ok := list.(ssa.Instruction); ok && li.Parent() != nil && li.Parent() != fn && isNewHelper(li.Parent()) {
 		body = li.Parent()
 	}
+	// ... or an extracted scan function whose result is the list
+	if call, ok := list.(*ssa.Call); ok {
+		if h := call.Call.StaticCallee(); isNewHelper(h) && h.Signature.Results().Len() == 1 {
+			body = h
+		}
+	}
 
 	// appends feeding the deletion list
 	var appends []*ssa.Call
@@ -155,6 +162,10 @@ func c07Function(c *Ctx, fn *ssa.Function) {
 			if calleeName(x) == "builtin:append" {
 				appends = append(appends, x)
 				collect(x.Call.Args[0])
+			} else if h := x.Call.StaticCallee(); isNewHelper(h) && h.Signature.Results().Len() == 1 {
+				for _, r := range returns(h) {
+					collect(retOperand(r, 0))
+				}
 			}
 		case *ssa.UnOp:
 			for _, o := range origins(x) {
@@ -188,6 +199,13 @@ func c07Function(c *Ctx, fn *ssa.Function) {
 				}
 			case *ssa.Slice:
 				w(x.X)
+			case *ssa.UnOp:
+				// the list kept in a memory cell (captured by a read-only closure)
+				if promotableCell(x) != nil {
+					for _, o := range origins(x) {
+						w(o)
+					}
+				}
 			}
 		}
 		w(v)
@@ -286,8 +304,45 @@ func c07Function(c *Ctx, fn *ssa.Function) {
 					return v.Type().String() == "bool"
 				}, Truth: false, Desc: "!processedAll (stopped at a too-recent file)"})
 			}
-			for _, inc := range incomings(list) {
+			// the ways the list can be selected, looking through the returns of an extracted
+			// scan function and the merges behind them
+			if strings.Contains(name, "L0Retention") {
+				thr := vResult(nameIs("(time.Time).Add"), 0)
+				neqAlts = append(neqAlts,
+					truthFact(vCall("(time.Time).After", created, thr), true, "stopped at a too-recent file"),
+					truthFact(vCall("(time.Time).Before", thr, created), true, ""))
+			}
+			var flat []Incoming
+			var expand func(v ssa.Value, d int)
+			expand = func(v ssa.Value, d int) {
+				for _, inc := range incomings(v) {
+					_, isPhi := inc.Val.(*ssa.Phi)
+					if inc.Ret != nil && isPhi && d < 3 {
+						// a return that is itself reached only with one of the facts stands as it is
+						guarded := false
+						for _, a := range neqAlts {
+							if inc.hasFact(a) {
+								guarded = true
+							}
+							if os.Getenv("LSV_DEBUG_C07") != "" {
+								g, k := guardedBy(inc.Ret, a)
+								fmt.Fprintln(os.Stderr, "c07 ret", c.pos(inc.Ret), a.Desc, g, k)
+							}
+						}
+						if !guarded {
+							expand(inc.Val, d+1)
+							continue
+						}
+					}
+					flat = append(flat, inc)
+				}
+			}
+			expand(list, 0)
+			for _, inc := range flat {
 				desc := fmt.Sprintf("list handed to DeleteLTXFiles (via block %s)", blkName(inc.Pred))
+				if inc.Ret != nil {
+					desc = "list returned at " + c.pos(inc.Ret)
+				}
 				if sl, ok := inc.Val.(*ssa.Slice); ok && isLenMinusOne(sl.High, sl.X) && sl.Low == nil {
 					c.ok(rule, name+": "+desc+" is trimmed of its last element", c.pos(del), "deleted[:len(deleted)-1]")
 					// the trim happens only when the last element is the last listed file
@@ -300,7 +355,7 @@ func c07Function(c *Ctx, fn *ssa.Function) {
 						ok = true
 					}
 				}
-				if inc.Pred == nil {
+				if inc.Pred == nil && inc.Ret == nil {
 					// not a phi: the untrimmed list reaches the delete directly
 					ok2, n := guardedSite(vdel, neqAlts...)
 					ok = n > 0 && ok2
@@ -474,7 +529,16 @@ func c07SnapshotFloor(c *Ctx) {
 							if b, ok := ia.Index.(*ssa.BinOp); ok && b.Op == token.SUB && vConstInt(1)(b.Y) {
 								good = true
 								// guarded by: element i is not in deleted, i > 0
-								c.requireGuard(rule, fn, Site{u, "floor = snapshots[i-1].MaxTXID"}, truthFact(vCallResult(func(s string) bool { return strings.HasPrefix(s, "slices.Contains") }), false, "!slices.Contains(deleted, snapshots[i])"))
+								if firstIndexNotDeleted(b.X, ia.X) {
+									// i = slices.IndexFunc(snapshots, func(x) bool { return !slices.Contains(deleted, x) }):
+									// for i >= 0 the library guarantees the predicate on snapshots[i] and its
+									// negation on everything before it
+									c.ok(rule, fnName(fn)+": floor = snapshots[i-1].MaxTXID requires [!slices.Contains(deleted, snapshots[i])]", c.pos(u), "i is the slices.IndexFunc result of that predicate over the same list")
+								} else {
+									c.requireGuard(rule, fn, Site{u, "floor = snapshots[i-1].MaxTXID"},
+										truthFact(vCallResult(func(s string) bool { return strings.HasPrefix(s, "slices.Contains") }), false, "!slices.Contains(deleted, snapshots[i])"),
+										truthFact(vSetMember(), false, "snapshots[i] not in the set built from the deletion list"))
+								}
 								c.requireGuard(rule, fn, Site{u, "floor = snapshots[i-1].MaxTXID"}, cmpFact(vIs(b.X), token.GTR, vConstInt(0), "i > 0"))
 							}
 						}
@@ -486,4 +550,88 @@ func c07SnapshotFloor(c *Ctx) {
 	}
 	c.floor(rule, n, 1, "non-zero floor values returned by DB.EnforceSnapshotRetention")
 	_ = types.Typ
+}
+
+// firstIndexNotDeleted reports whether idx is slices.IndexFunc(list, pred) where pred
+// returns exactly !slices.Contains(<some list>, its argument).
+func firstIndexNotDeleted(idx, list ssa.Value) bool {
+	call, ok := idx.(*ssa.Call)
+	if !ok || !strings.HasPrefix(calleeName(call), "slices.IndexFunc") || len(call.Call.Args) != 2 {
+		return false
+	}
+	if !sameValue(call.Call.Args[0], list) && call.Call.Args[0] != list {
+		return false
+	}
+	var pred *ssa.Function
+	switch x := call.Call.Args[1].(type) {
+	case *ssa.MakeClosure:
+		pred, _ = x.Fn.(*ssa.Function)
+	case *ssa.Function:
+		pred = x
+	}
+	if pred == nil || len(pred.Params) != 1 {
+		return false
+	}
+	rets := returns(pred)
+	if len(rets) == 0 {
+		return false
+	}
+	for _, r := range rets {
+		if len(r.Results) != 1 {
+			return false
+		}
+		not, ok := r.Results[0].(*ssa.UnOp)
+		if !ok || not.Op != token.NOT {
+			return false
+		}
+		in, ok := not.X.(*ssa.Call)
+		if !ok || !strings.HasPrefix(calleeName(in), "slices.Contains") || len(in.Call.Args) != 2 || in.Call.Args[1] != ssa.Value(pred.Params[0]) {
+			return false
+		}
+	}
+	return true
+}
+
+// vSetMember matches the ok result of `_, ok := set[x]` where set is a local map filled
+// only by ranging over a slice (the set form of slices.Contains(list, x)).
+func vSetMember() VM {
+	return func(v ssa.Value) bool {
+		ex, ok := v.(*ssa.Extract)
+		if !ok || ex.Index != 1 {
+			return false
+		}
+		lk, ok := ex.Tuple.(*ssa.Lookup)
+		if !ok || !lk.CommaOk {
+			return false
+		}
+		for _, o := range origins(lk.X) {
+			mm, ok := o.(*ssa.MakeMap)
+			if !ok || mm.Referrers() == nil {
+				return false
+			}
+			n := 0
+			for _, r := range *mm.Referrers() {
+				mu, ok := r.(*ssa.MapUpdate)
+				if !ok {
+					continue
+				}
+				n++
+				fromRange := false
+				for _, k := range origins(mu.Key) {
+					if u, ok := k.(*ssa.UnOp); ok {
+						if _, ok := u.X.(*ssa.IndexAddr); ok {
+							fromRange = true
+						}
+					}
+				}
+				if !fromRange {
+					return false
+				}
+			}
+			if n == 0 {
+				return false
+			}
+		}
+		return true
+	}
 }
